@@ -433,7 +433,8 @@ def run(tier, seed):
     r = explore.Run(PROP, tier, seed)
     states = c01.gather_states(tier, r, budget=100 if tier == 'quick' else 500)
     # the attrs families use schemas without auth/host/style: the client backends need those, keep them for the types backends only
-    items = [('model', s) for s in states if not any(ns.name == 'stone_cfg' for ns in s[0].namespaces)]
+    # route names with a path are left to the Python / JavaScript checks: the Swift / Objective-C naming of such routes is not documented
+    items = [('model', s) for s in states if not any(ns.name == 'stone_cfg' for ns in s[0].namespaces) and s[2] != 'path-routes']
     shapes = shape_specs()
     items += [('shape', lab, sp, inv) for lab, sp, inv in shapes]
     r.bounds.update({'configurations': [b + ' ' + ' '.join(a[:1] if a and a[0] == '--objc' else []) for b, a in CONFIGS], 'models': len(items) - len(shapes),
